@@ -847,4 +847,26 @@ theorem C13_toy_dec_lossless : DecLossless toyDCodec toyImage := by
   rw [C13_aux_decRest_toy, h, C13_aux_feed_image]
   simp [toyDCodec]
 
+/-! ### hypotheses are satisfiable: concrete instances -/
+
+/-- `C13_request_decoded` instantiated with the code's split and the driver's store-decoder -/
+theorem C13_request_decoded_toy (orig : Bytes) (body : List BodyEv) (joins : List Nat)
+    (hb : hasErr body = false) (henc : (chunksOf body).flatten = toyImage orig) :
+    (outChunks (dDriveAt Decoder.inPlaceCode toyDCodec (dFuelFor (initDec toyDCodec true) body joins)
+      (initDec toyDCodec true) body joins)).flatten = orig :=
+  (C13_request_decoded Decoder.inPlaceCode toyDCodec toyImage C13_toy_dec_lossless orig body joins hb henc
+    _ (Nat.le_refl _)).1
+
+-- a payload cut in the middle of the trailer-bearing image, with a Pending in between
+example : (chunksOf [.chunk [0x54, 7], .pending, .chunk [8, 2]]).flatten = toyImage [7, 8] := by decide
+-- a failing body for `C13_error_propagated`
+example : hasErr [.chunk [1], .pending, .err, .chunk [2]] = true := by decide
+-- a header for which `negotiate` answers `None` (`C13_not_acceptable_justified`)
+example : negotiate [⟨.specific .identity, 0⟩, ⟨.specific (.other "compress"), 1000⟩] supported = none := by decide
+-- two supported codings with equal weight (`C13_negotiate_tiebreak`): br wins over gzip
+example : negotiate [⟨.specific .gzip, 800⟩, ⟨.specific .br, 800⟩] supported = some .br := by decide
+-- `C13_compress_sound`: the middleware installs a compressor here
+example : (compress (some [⟨.specific .zstd, 1000⟩]) ⟨200, [("vary", "origin")], false⟩ (some ("text", "plain"))
+    ⟨.stream, none, [.chunk [1, 2, 3]]⟩).mode = .encode .zstd := by decide
+
 end ActixModel.C13
